@@ -127,6 +127,14 @@ func (v *VMap) validate(prefix string, tv reflect.Value) *VMap {
 			fn(v.errBuf, validName, "", v.getKey(prefix, key), val)
 		}
 	}
+
+	// 规则里有但 map 里不存在的 key
+	for key, validNames := range v.ruleObj {
+		if key == "" || tv.MapIndex(reflect.ValueOf(key).Convert(tv.Type().Key())).IsValid() {
+			continue
+		}
+		missRequired(v.errBuf, v.getKey(prefix, key), validNames)
+	}
 	return v
 }
 
